@@ -115,6 +115,9 @@ type GenericImage struct {
 	Ats  int64
 }
 
+// SetOnAt installs the At hook.
+func (g *GenericImage) SetOnAt(f func()) { g.OnAt = f }
+
 func (g *GenericImage) ColorModel() color.Model { return color.RGBAModel }
 func (g *GenericImage) Bounds() image.Rectangle { return g.R }
 func (g *GenericImage) At(x, y int) color.Color {
